@@ -16,6 +16,7 @@ import (
 	"math/rand"
 	"os"
 	"sync"
+	"sync/atomic"
 	"testing"
 	"time"
 
@@ -26,6 +27,7 @@ import (
 	"github.com/ipfs/ipfs-cluster/api"
 	"github.com/ipfs/ipfs-cluster/informer/disk"
 	"github.com/ipfs/ipfs-cluster/informer/numpin"
+	"github.com/ipfs/ipfs-cluster/monitor/metrics"
 	"github.com/ipfs/ipfs-cluster/monitor/pubsubmon"
 	"github.com/ipfs/ipfs-cluster/pintracker/stateless"
 	"github.com/ipfs/ipfs-cluster/state"
@@ -106,6 +108,19 @@ type rec struct {
 	Panic       string   `json:"panic"`
 	Result      string   `json:"result"`
 	Notes       []string `json:"notes"`
+	// lifecycle: what was observed (1 = yes): Done() closed within the deadline, a later Shutdown() returned
+	Done  int `json:"done"`
+	Later int `json:"later"`
+	// publish: metric names of the configured informers / metric names published within the deadline
+	Want []string `json:"want"`
+	Seen []string `json:"seen"`
+	// check: one FailedMetric() call on window version Ver of run Run; T0/T1 = tickets of the run's global
+	// order taken before / after the call; Failed = its answer
+	Run    string `json:"run"`
+	Ver    int    `json:"ver"`
+	T0     int64  `json:"t0"`
+	T1     int64  `json:"t1"`
+	Failed int    `json:"failed"`
 }
 
 // mark writes the scenario in progress next to the trace (a crash in a goroutine of a
@@ -126,6 +141,12 @@ func (r *recorder) put(x *rec) {
 	}
 	if x.Notes == nil {
 		x.Notes = []string{}
+	}
+	if x.Want == nil {
+		x.Want = []string{}
+	}
+	if x.Seen == nil {
+		x.Seen = []string{}
 	}
 	r.mu.Lock()
 	r.enc.Encode(x)
@@ -311,40 +332,245 @@ func gatedInformer(res *hx.Result, out *recorder, name string, mk func() informe
 	res.Case(map[string]interface{}{"kind": "informer-gated", "informer": name}, true)
 }
 
-// ---------------------------------------------------------------- lifecycle: consensus never ready
-// Cluster.ready() gives up after ReadyTimeout and shuts the peer down; the peer must then really stop
-// (Done() closed) and a concurrent Shutdown() call must return.
-func lifecycleReadyTimeout(res *hx.Result, out *recorder) {
-	mark("lifecycle:ready-timeout")
-	old := ipfscluster.ReadyTimeout
-	ipfscluster.ReadyTimeout = 300 * time.Millisecond
-	defer func() { ipfscluster.ReadyTimeout = old }()
-	r, err := rig.NewRig(rig.Opts{NeverReady: true})
+// ---------------------------------------------------------------- lifecycle: start-up that fails
+// Cluster.ready() shuts the peer down when start-up fails; the peer must then really stop (Done() closed) and
+// a later Shutdown() call must return. Only the two observations are recorded, TLC judges them (StopsOk).
+//   ready-timeout : the consensus never becomes ready, ready() gives up after ReadyTimeout
+//   peers-error   : the consensus is ready, the consensus.Peers() call that follows fails
+func lifecycle(res *hx.Result, out *recorder, scenario string, mk func() (*rig.Rig, func() bool, error)) {
+	mark("lifecycle:" + scenario)
+	r, reached, err := mk()
 	if err != nil {
 		res.Infra("rig: %v", err)
 		return
 	}
-	x := &rec{Kind: "lifecycle", Scenario: "ready-timeout"}
+	x := &rec{Kind: "lifecycle", Scenario: scenario}
 	select {
 	case <-r.Cluster.Done():
+		x.Done = 1
 		x.Result = "done"
+	case <-r.Cluster.Ready():
+		res.Infra("lifecycle %s: the peer became ready, the failing start-up was not constructed", scenario)
+		r.Close()
+		return
 	case <-time.After(10 * time.Second):
-		x.Panic = "deadlock: the peer gave up waiting for consensus but never finished shutting down (Done() not closed after 10s)"
+		x.Result = "the peer gave up starting but never finished shutting down (Done() not closed after 10s)"
 	}
-	if x.Panic == "" {
+	if !reached() {
+		res.Infra("lifecycle %s: the start-up did not take the scripted branch", scenario)
+		r.CloseStartup()
+		return
+	}
+	if x.Done == 1 {
 		fin := make(chan struct{})
 		go func() { r.Cluster.Shutdown(context.Background()); close(fin) }()
 		select {
 		case <-fin:
+			x.Later = 1
 		case <-time.After(10 * time.Second):
-			x.Panic = "deadlock: Shutdown() called after the ready timeout never returned"
+			x.Result = "Shutdown() called after the failed start-up never returned"
 		}
 	}
-	if x.Panic == "" {
-		r.Host.Close()
+	r.CloseStartup()
+	out.put(x)
+	res.Case(map[string]interface{}{"kind": "lifecycle", "scenario": scenario}, true)
+}
+
+func lifecycleReadyTimeout(res *hx.Result, out *recorder) {
+	old := ipfscluster.ReadyTimeout
+	ipfscluster.ReadyTimeout = 300 * time.Millisecond
+	defer func() { ipfscluster.ReadyTimeout = old }()
+	lifecycle(res, out, "ready-timeout", func() (*rig.Rig, func() bool, error) {
+		r, err := rig.NewRig(rig.Opts{NeverReady: true})
+		return r, func() bool { return true }, err
+	})
+}
+
+func lifecyclePeersError(res *hx.Result, out *recorder) {
+	var fc *rig.FlakyPeersConsensus
+	lifecycle(res, out, "peers-error", func() (*rig.Rig, func() bool, error) {
+		r, err := rig.NewRigStartup(func(c *rig.FakeConsensus) ipfscluster.Consensus {
+			fc = &rig.FlakyPeersConsensus{FakeConsensus: c, FailPeers: 1}
+			return fc
+		})
+		return r, func() bool { return atomic.LoadInt32(&fc.PeersCalls) >= 1 }, err
+	})
+}
+
+// ---------------------------------------------------------------- start-up fan-out: one push loop per informer
+// A Cluster configured with n informers: Cluster.run() starts one pushInformerMetrics goroutine per informer and
+// each publishes at once. Recorded: the configured metric names and the names published within the deadline.
+func fanoutInformers(res *hx.Result, out *recorder, n int) {
+	mark(fmt.Sprintf("fanout:%d-informers", n))
+	var infs []*rig.FakeInformer
+	x := &rec{Kind: "publish", Scenario: fmt.Sprintf("%d-informers", n)}
+	for i := 1; i <= n; i++ {
+		name := fmt.Sprintf("verif-inf-%d", i)
+		infs = append(infs, &rig.FakeInformer{MetricName: name, Value: fmt.Sprint(i)})
+		x.Want = append(x.Want, name)
+	}
+	r, err := rig.NewRigInformers(rig.Opts{}, infs)
+	if err != nil {
+		res.Infra("rig: %v", err)
+		return
+	}
+	defer r.Close()
+	seen := map[string]bool{}
+	deadline := time.Now().Add(10 * time.Second)
+	for {
+		for _, c := range r.Mon.TakeCalls() {
+			if c.Kind == "publish" && !seen[c.Metric.Name] {
+				seen[c.Metric.Name] = true
+				x.Seen = append(x.Seen, c.Metric.Name)
+			}
+		}
+		all := true
+		for _, w := range x.Want {
+			all = all && seen[w]
+		}
+		if all || time.Now().After(deadline) {
+			break
+		}
+		time.Sleep(5 * time.Millisecond)
 	}
 	out.put(x)
-	res.Case(map[string]interface{}{"kind": "lifecycle", "scenario": "ready-timeout"}, true)
+	res.Case(map[string]interface{}{"kind": "fanout", "informers": n}, true)
+}
+
+// ---------------------------------------------------------------- failure checks on an unchanged window
+// The accrual path of Checker.failed(): >= 6 "ping" metrics of a peer in the window, the latest expired. For each
+// window version (a round of regularly spaced metrics; the driver adds no metric while checks run): a silence long enough for the peer to count as
+// failed, 3 checks in a row, 4 goroutines x 25 concurrent checks, 2 checks in a row. Every FailedMetric() call is
+// recorded with its position in the global order and its answer; TLC judges them (Unstable).
+func accrualChecks(res *hx.Result, out *recorder, seed int64, n0 int) {
+	mark(fmt.Sprintf("accrual-checks:%d", n0))
+	names := hx.NewNames(seed)
+	pid := names.Peer("silent")
+	store := metrics.NewStore()
+	checker := metrics.NewChecker(context.Background(), store, 3.0)
+	run := fmt.Sprintf("s%d-n%d", seed, n0)
+	var ticket int64
+	var maxGap time.Duration
+	last := time.Time{}
+	add := func(i int) {
+		m := &api.Metric{Name: "ping", Peer: pid, Value: "1", Valid: true}
+		m.SetTTL(time.Millisecond)
+		store.Add(m)
+		now := time.Now()
+		if !last.IsZero() && now.Sub(last) > maxGap {
+			maxGap = now.Sub(last)
+		}
+		last = now
+	}
+	var pmu sync.Mutex
+	panicked := ""
+	check := func(ver int) (failed bool) {
+		defer func() {
+			if r := recover(); r != nil {
+				pmu.Lock()
+				panicked = fmt.Sprint(r)
+				pmu.Unlock()
+			}
+		}()
+		t0 := atomic.AddInt64(&ticket, 1)
+		f := checker.FailedMetric("ping", pid)
+		t1 := atomic.AddInt64(&ticket, 1)
+		x := &rec{Kind: "check", Scenario: "accrual", Run: run, Ver: ver, T0: t0, T1: t1}
+		if f {
+			x.Failed = 1
+		}
+		out.put(x)
+		return f
+	}
+	for ver := 1; ver <= 3; ver++ {
+		// version 1: n0 metrics; later versions: 26 more, which push the long silence out of the window (capacity 25)
+		n := n0
+		if ver > 1 {
+			n = metrics.DefaultWindowCap + 1
+		}
+		last = time.Time{}
+		for i := 0; i < n; i++ {
+			add(i)
+			time.Sleep(time.Duration(1+i%3) * time.Millisecond)
+		}
+		// silent for >= 20x the longest gap between two metrics: far beyond any threshold of the detector
+		silence := 20 * maxGap
+		if silence < 300*time.Millisecond {
+			silence = 300 * time.Millisecond
+		}
+		if silence > 6*time.Second {
+			res.Infra("accrual: metrics could not be fed regularly (gap of %v)", maxGap)
+			return
+		}
+		time.Sleep(silence)
+		nfailed := 0
+		for i := 0; i < 3; i++ {
+			if check(ver) {
+				nfailed++
+			}
+		}
+		var wg sync.WaitGroup
+		var nf int64
+		for g := 0; g < 4; g++ {
+			wg.Add(1)
+			go func() {
+				defer wg.Done()
+				for i := 0; i < 25; i++ {
+					if check(ver) {
+						atomic.AddInt64(&nf, 1)
+					}
+				}
+			}()
+		}
+		wg.Wait()
+		for i := 0; i < 2; i++ {
+			if check(ver) {
+				nfailed++
+			}
+		}
+		res.Count(105)
+		if nfailed+int(nf) == 0 {
+			res.Infra("accrual: a peer silent for %v (longest gap before: %v) was not reported failed by any of 105 checks: "+
+				"the situation was not constructed", silence, maxGap)
+			return
+		}
+	}
+	// CheckPeers (alerts, then removal of the peer's metrics) from several goroutines: observed by the race detector only
+	stop := make(chan struct{})
+	go func() {
+		for {
+			select {
+			case <-checker.Alerts():
+			case <-stop:
+				return
+			}
+		}
+	}()
+	var wg sync.WaitGroup
+	for g := 0; g < 4; g++ {
+		wg.Add(1)
+		go func() {
+			defer wg.Done()
+			defer func() {
+				if r := recover(); r != nil {
+					pmu.Lock()
+					panicked = fmt.Sprint(r)
+					pmu.Unlock()
+				}
+			}()
+			for i := 0; i < 10; i++ {
+				checker.CheckPeers([]peer.ID{pid})
+				checker.FailedMetric("ping", pid)
+			}
+		}()
+	}
+	wg.Wait()
+	close(stop)
+	res.Count(80)
+	pmu.Lock()
+	out.put(&rec{Kind: "metrics", Scenario: "accrual-checks", Panic: panicked, Result: "done"})
+	pmu.Unlock()
+	res.Case(map[string]interface{}{"kind": "accrual-checks", "metrics": n0, "seed": seed}, true)
 }
 
 // ---------------------------------------------------------------- free-running: alerts
@@ -813,6 +1039,9 @@ func TestDriver(t *testing.T) {
 		return i
 	}
 	lifecycleReadyTimeout(res, out)
+	lifecyclePeersError(res, out)
+	fanoutInformers(res, out, 3)
+	fanoutInformers(res, out, 2)
 	gatedInformer(res, out, "disk", mkDisk, func(f func(string)) { disk.VerifGate = f })
 	gatedInformer(res, out, "numpin", mkNum, func(f func(string)) { numpin.VerifGate = f })
 	for i := 0; i < rounds; i++ {
@@ -822,6 +1051,8 @@ func TestDriver(t *testing.T) {
 		stressTracker(res, out, seed*13+int64(i), false)
 		stressTracker(res, out, seed*17+int64(i), true)
 		stressMetrics(res, out, seed*19+int64(i))
+		accrualChecks(res, out, seed*23+int64(i), 8)
+		accrualChecks(res, out, seed*23+int64(i), 30)
 	}
 	res.Set("records", out.n)
 	mark("done")
